@@ -4,9 +4,42 @@
 mod canon;
 mod modes;
 
-use std::io::{BufRead, Write};
+use std::io::{BufRead, BufReader, Read, Seek, SeekFrom, Write};
+use std::os::fd::{AsRawFd, FromRawFd, IntoRawFd};
 use std::panic;
 use std::sync::Mutex;
+
+unsafe extern "C" {
+    fn dup(fd: i32) -> i32;
+    fn dup2(a: i32, b: i32) -> i32;
+    fn close(fd: i32) -> i32;
+}
+
+/// Point fd 0 at `file` (or close it for `None`): what the program under test sees as stdin.
+pub fn set_stdin(file: Option<std::fs::File>) {
+    unsafe {
+        match file {
+            Some(f) => {
+                let fd = f.into_raw_fd();
+                if fd != 0 {
+                    dup2(fd, 0);
+                    close(fd);
+                }
+            }
+            None => {
+                close(0);
+            }
+        }
+    }
+}
+
+pub fn scratch_dir() -> std::path::PathBuf {
+    let d = std::path::PathBuf::from(
+        std::env::var("SSLH_SCRATCH").unwrap_or_else(|_| "/verif/.cache/harness-io".into()),
+    );
+    let _ = std::fs::create_dir_all(&d);
+    d
+}
 
 pub static LAST_PANIC: Mutex<Option<String>> = Mutex::new(None);
 
@@ -56,10 +89,24 @@ fn real_main() {
             .unwrap_or_else(|| "?".into());
         *LAST_PANIC.lock().unwrap() = Some(loc);
     }));
-    let stdin = std::io::stdin();
-    let stdout = std::io::stdout();
-    let mut out = stdout.lock();
-    for line in stdin.lock().lines() {
+    // The protocol keeps private copies of the original stdin/stdout; fd 1 becomes a capture file
+    // (what `print` writes is reported per case) and fd 0 is /dev/null unless a case sets it.
+    let proto_in = unsafe { std::fs::File::from_raw_fd(dup(0)) };
+    let mut out = unsafe { std::fs::File::from_raw_fd(dup(1)) };
+    let cap_path = scratch_dir().join(format!("stdout.{}", std::process::id()));
+    let mut cap = std::fs::OpenOptions::new()
+        .create(true)
+        .truncate(true)
+        .read(true)
+        .write(true)
+        .open(&cap_path)
+        .expect("capture file");
+    unsafe {
+        dup2(cap.as_raw_fd(), 1);
+    }
+    set_stdin(std::fs::File::open("/dev/null").ok());
+    let mut cap_pos: u64 = 0;
+    for line in BufReader::new(proto_in).lines() {
         let line = match line {
             Ok(l) => l,
             Err(_) => break,
@@ -76,7 +123,21 @@ fn real_main() {
                 format!("(harness-panic {loc})")
             }
         };
-        let _ = writeln!(out, "{}", text.replace('\n', " "));
+        let _ = std::io::stdout().flush();
+        let mut printed = Vec::new();
+        if cap.seek(SeekFrom::Start(cap_pos)).is_ok() {
+            let _ = cap.read_to_end(&mut printed);
+        }
+        cap_pos += printed.len() as u64;
+        let mut text = text.replace('\n', " ");
+        if !printed.is_empty() {
+            text.push_str(&format!(
+                " (stdout {})",
+                canon::string(&String::from_utf8_lossy(&printed))
+            ));
+        }
+        let _ = writeln!(out, "{}", text);
         let _ = out.flush();
     }
+    let _ = std::fs::remove_file(&cap_path);
 }
